@@ -365,6 +365,13 @@ def build_robot(layout, H, opts):
                 elif o is None:
                     seen.append((cn, False))
             H.log.add("setup_sees", self.NAME, seen)
+            marks = []
+            for cn, attr, dflt in getattr(H, "marker_attrs", []):
+                o = getattr(r, cn, None)
+                if o is not None:
+                    marks.append((cn, attr, getattr(o, attr, "<missing>"), dflt))
+            if marks:
+                H.log.add("setup_markers", self.NAME, marks)
             H.callback(f"{self.NAME}.setup", self.NAME)
 
         def on_enable(self):
@@ -394,6 +401,11 @@ def build_robot(layout, H, opts):
         y = will_reset_to("dflt")
         target = will_reset_to(NO_TARGET)
         shared: Shared
+
+        def __setattr__(self, k, v):
+            # a write journal (dirty tracking): only real assignments go through here
+            object.__setattr__(self, k, v)
+            self.__dict__.setdefault("journal", []).append(k)
 
         def __init__(self):
             H.log.add("ctor", self.NAME)
@@ -592,6 +604,13 @@ def build_robot(layout, H, opts):
         raise ValueError(layout)
     hooks = {"c1": {"setup", "on_enable", "on_disable"}, "c2": {"setup", "on_enable", "on_disable"}, "c3": set(),
              "c4": {"on_disable"}, "c5": {"on_enable"}, "c6": {"setup", "on_enable", "on_disable"}}
+    craise = H.job["cfg"].get("c_raiser")
+    if craise:
+        # a hook that is a C-implemented callable and raises (no python frame of its own): the framework sees an
+        # exception whose traceback ends in its own code; the hook never logs, so it is not expected in the log
+        cn, _, hook = craise.partition(".")
+        setattr({"c1": CompA}[cn], hook, [].pop)
+        hooks[cn].discard(hook)
     return Robot, comps, hooks
 
 
